@@ -1,8 +1,10 @@
 // Mode `fn` of the translator: a first-order subset of Go -> Gallina (tools/notes/Translator.md).
 //
 //   extract fn  <file.go> <Name[,Name...]> <prefix>   Name is Func or Recv.Method; prints the Records the
-//                                                     functions need (only the fields they read), a zero value
-//                                                     per Record, and one Definition <prefix><Func> /
+//                                                     functions need (only the fields they read, plus those
+//                                                     asked for by a Name of the form +Type.Field), a zero
+//                                                     value and a builder <prefix>T_mk : list string -> T per
+//                                                     Record, and one Definition <prefix><Func> /
 //                                                     <prefix><Recv>_<Method> per function (callees in the same
 //                                                     file first).
 //   extract src <file.go> <Name>                      the Go text of that function (for replay files)
@@ -290,7 +292,7 @@ func (t *tr) expr(e ast.Expr) (string, *typ) {
 		if len(parts) == 0 {
 			return t.zero(ty), ty
 		}
-		return "[" + strings.Join(parts, "; ") + "]", ty
+		return "[" + strings.Join(parts, "; ") + "]%list", ty
 	case *ast.CallExpr:
 		return t.call(x)
 	}
@@ -425,7 +427,7 @@ func (t *tr) call(x *ast.CallExpr) (string, *typ) {
 				if !dty.eq(ty) {
 					die("append(%v, %v...)", ty, dty)
 				}
-				return "(" + c + " ++ " + d + ")", ty
+				return "(" + c + " ++ " + d + ")%list", ty
 			}
 			var parts []string
 			for _, a := range x.Args[1:] {
@@ -438,7 +440,7 @@ func (t *tr) call(x *ast.CallExpr) (string, *typ) {
 			if len(parts) == 0 {
 				return c, ty
 			}
-			return "(" + c + " ++ [" + strings.Join(parts, "; ") + "])", ty
+			return "(" + c + " ++ [" + strings.Join(parts, "; ") + "])%list", ty
 		case "make":
 			if len(x.Args) < 2 || len(x.Args) > 3 {
 				die("unsupported call %s", t.text(x))
@@ -567,12 +569,10 @@ func (t *tr) callLocal(key string, fd *ast.FuncDecl, recv string, recvTy *typ, x
 		die("unsupported call %s", t.text(x))
 	}
 	// translate the callee in its own context
-	save := *t
+	env, result, loops, ia, iv := t.env, t.result, t.loops, t.idxAlias, t.idxVar
 	t.function(key)
+	t.env, t.result, t.loops, t.idxAlias, t.idxVar = env, result, loops, ia, iv
 	ptys, res := t.signature(fd)
-	restore := *t
-	restore.env, restore.result, restore.loops, restore.idxAlias, restore.idxVar = save.env, save.result, save.loops, save.idxAlias, save.idxVar
-	*t = restore
 	if fd.Recv != nil {
 		ptys = ptys[1:]
 	}
@@ -1021,14 +1021,11 @@ func (t *tr) block(l []ast.Stmt, k func() string) string {
 		elem := v(iName + "_elem")
 		t.idxAlias[key] = elem
 		t.idxVar[iName] = true
-		out := t.loop(s.Body.List, v(xsName), elem, func() string {
-			delete(t.idxAlias, key)
+		return t.loop(s.Body.List, v(xsName), elem, func() string {
+			delete(t.idxAlias, key) // (i is not in scope after the loop)
 			delete(t.idxVar, iName)
-			t.env[iName] = tInt // after the loop i = len(xs); the subset has no use for it, but it is in scope... only inside the loop in Go
-			delete(t.env, iName)
 			return rest()
 		})
-		return out
 	}
 	die("unsupported statement %s (%T)", strings.SplitN(t.text(l[0]), "\n", 2)[0], l[0])
 	return ""
@@ -1145,6 +1142,16 @@ func fnMode() {
 	t := &tr{prefix: os.Args[4], used: map[string]map[string]bool{}, done: map[string]string{}, busy: map[string]bool{}}
 	t.load(os.Args[2])
 	for _, key := range strings.Split(os.Args[3], ",") {
+		if strings.HasPrefix(key, "+") { // +Type.Field: keep this field in the Record even if no translated function reads it
+			parts := strings.SplitN(key[1:], ".", 2)
+			if _, ok := t.structs[parts[0]]; !ok || len(parts) != 2 {
+				die("struct field %s not found", key[1:])
+			}
+			t.mention(parts[0])
+			t.fieldType(parts[0], parts[1])
+			t.used[parts[0]][parts[1]] = true
+			continue
+		}
 		t.function(key)
 	}
 	var out bytes.Buffer
@@ -1155,7 +1162,8 @@ func fnMode() {
 			return
 		}
 		emitted[name] = true
-		var fields, zeros []string
+		var fields, zeros, mk []string
+		nstr := 0
 		for _, f := range t.structs[name].Fields.List {
 			for _, n := range f.Names {
 				if !t.used[name][n.Name] {
@@ -1172,10 +1180,23 @@ func fnMode() {
 				}
 				fields = append(fields, fmt.Sprintf("%s%s_%s : %s", t.prefix, name, n.Name, t.coqType(ty)))
 				zeros = append(zeros, fmt.Sprintf("%s%s_%s := %s", t.prefix, name, n.Name, t.zero(ty)))
+				if ty.kind == "string" {
+					mk = append(mk, fmt.Sprintf("%s%s_%s := nth %d ss \"\"", t.prefix, name, n.Name, nstr))
+					nstr++
+				} else {
+					mk = append(mk, zeros[len(zeros)-1])
+				}
 			}
 		}
 		fmt.Fprintf(&out, "Record %s%s := { %s }.\n", t.prefix, name, strings.Join(fields, "; "))
-		fmt.Fprintf(&out, "Definition %s%s_zero : %s%s := {| %s |}.\n", t.prefix, name, t.prefix, name, strings.Join(zeros, "; "))
+		if len(fields) == 0 {
+			fmt.Fprintf(&out, "Definition %s%s_zero : %s%s := Build_%s%s.\n", t.prefix, name, t.prefix, name, t.prefix, name)
+		} else {
+			fmt.Fprintf(&out, "Definition %s%s_zero : %s%s := {| %s |}.\n", t.prefix, name, t.prefix, name, strings.Join(zeros, "; "))
+			// a value from a list of strings (the string fields in declaration order; other fields zero): used to enumerate inputs
+			fmt.Fprintf(&out, "Definition %s%s_mk (ss : list string) : %s%s := {| %s |}.\n", t.prefix, name, t.prefix, name, strings.Join(mk, "; "))
+			fmt.Fprintf(&out, "Definition %s%s_arity : nat := %d.\n", t.prefix, name, nstr)
+		}
 	}
 	for i := 0; i < len(t.usedAny); i++ { // emit may mention further structs
 		emit(t.usedAny[i])
